@@ -4,8 +4,6 @@ Every restriction below of the form "not generated" exists because the manual do
 not define the case (see the `Silent` exceptions of the model) or because the manual's
 description of the *syntax* leaves the reading open.
 """
-import math
-
 from . import expr as E
 from .expr import Node, Silent, Undefined, IllTyped
 
@@ -26,8 +24,6 @@ ESCAPES = [('\\t', 9), ('\\n', 10), ('\\r', 13), ('\\a', 7), ('\\b', 8), ('\\e',
            ('\\i', 34), ('\\H', 39), ('\\I', 34), ('\\T', 9), ('\\65', 65), ('\\x41', 65), ('\\X7e', 126),
            ('\\0101', 65), ('\\9', 9), ('\\127', 127), ('\\x7F', 127), ('\\032', 26)]
 HIGH_ESCAPES = [('\\200', 200), ('\\255', 255), ('\\xff', 255), ('\\x80', 128), ('\\128', 128), ('\\0377', 255)]
-
-INT_FUNCS1 = ['BITCNT', 'FIRSTBIT', 'LASTBIT', 'BITPOS', 'SGN', 'ABS', 'TOUPPER', 'TOLOWER']
 
 
 def flit(text):
@@ -212,7 +208,7 @@ class Gen:
                 return n
         return self.leaf(t)
 
-    def _num(self, d, allow_char=False):
+    def _num(self, d):
         """int or float subtree"""
         return self.gen('f' if self.rng.random() < 0.35 else 'i', d)
 
@@ -765,8 +761,6 @@ def notation_token(rng, v, radix, enabled):
             return None
         if eaten(letter):
             return _rcase(rng, tok), int(tok, radix), choice + '-eaten'
-        if choice == 'hexh' and 'binb' in enabled and d[-1] == 'b' and False:
-            return None
         return _rcase(rng, tok), v, choice
     if choice in ('0xhex', '0bbin'):
         base = 16 if choice == '0xhex' else 2
